@@ -3,8 +3,8 @@
 Tie (U): random histories over the public Mesh API on small random models are run on the real code;
 every file written and every set of operation points after a backport is parsed and compared, inside
 Coq, with the state machine of Model/C12_MeshLife.v (`run fixed tables (init store) history`); its Mesh.grade is the
-propagation model of C01/C02 run from the state the previous write left (Model/C12_Regrade.v), so meshes whose
-counts and gradings are propagated from neighbouring blocks are inside the comparison, second writes included.
+propagation model of C01/C02 preceded by the reset of every wire manager (Model/C12_Regrade.v, fixes/C12-4.diff), so
+meshes whose counts and gradings are propagated from neighbouring blocks are inside the comparison, second writes included.
 Tie (F): the constant tables the model takes as parameters (face corners per orient, wire corner pairs
 per axis, the default patch type) are tabulated from the working tree into coq/Gen/C12/Tables.v.
 
@@ -1136,11 +1136,14 @@ def _ebox(x, y, zchop):
     return dict(pts=pts, patches={}, chops=[[dict(count=3)], [dict(count=3)], zchop], extras=[])
 
 
-# NOT in scope of the model (total expansions): a wire of an un-chopped axis that is defined by neighbours graded before
-# it takes, on the second write, the tolerance-equal grading of a neighbour graded after it (notes/C12.md, fixes/C12-4.diff).
-# Run only when its signature is registered in known_findings.json (open: reported as KNOWN-FINDING; fixed: must pass).
-# Same root cause, visible symptom: write; move vertices; write raises InconsistentGradingsError when the count of the
-# chopped neighbour follows the edge lengths (start_size): the propagated block keeps the count of the first run.
+# Regression probes of the defect repaired by fixes/C12-4.diff (/repo 79421ab), both outside the scope of the Coq model
+# (expansions, counts that follow lengths) and judged by the direct oracle: blocks graded by propagation kept the chops
+# and wire gradings copied in the first grade().  They run when their signature is registered in known_findings.json
+# (status fixed: they must pass; status open: reported as KNOWN-FINDING).
+# 1. a wire of an un-chopped axis that is defined by neighbours graded before it took, on the second write, the
+#    tolerance-equal grading of a neighbour graded after it;
+# 2. write; move vertices; write raised InconsistentGradingsError when the count of the chopped neighbour follows the
+#    edge lengths (start_size): the propagated block kept the count of the first run.
 MOVE_SIG = "C12:write:raises-InconsistentGradingsError:repeated-write:after-move"
 MOVE_OPS = [dict(pts=[[x, y, z] for (x, y, z) in XYZ], patches={}, extras=[],
                  chops=[[dict(count=4)], [dict(start_size=0.1)], [dict(count=4)]]),
@@ -1178,11 +1181,12 @@ class C12(Prop):
         "history correspondence is sampled (random histories), not exhaustive",
     ]
     partial = [
-        "C12_second_write_exact_with_expansions_refuted: with total expansions other than 1 the code compares gradings of "
-        "coincident wires up to constants.TOL and copy_neighbours lets the last defined coincident wire win; a second "
-        "write can then print the tolerance-equal grading of another neighbour (witness on the payload model of C04; "
-        "reproduced on the implementation, notes/C12.md). C12_write_idempotent is exact for count-only chops "
-        "(propagated or not); what survives with expansions (counts always, specifications up to TOL) is not proved",
+        "C12_write_idempotent / C12_grade_state_independent are proved of the count model (a chop is its count). That the reset "
+        "of fixes/C12-4.diff makes a repeated grade the first-run function again holds for any payload by the same argument, "
+        "but gradings with expansions and counts that follow edge lengths (start_size) are not in Model/C12_MeshLife.v: "
+        "there the repair is exercised on the implementation only (the two regression probes of corpus/C12 and the rich "
+        "histories of the direct oracle). C12_second_write_exact_with_expansions_refuted and C12_*_without_reset "
+        "describe the code BEFORE that repair",
     ]
 
     def generate(self, ctx):
@@ -1312,8 +1316,7 @@ class C12(Prop):
                 seen.add(r["sig"])
                 h2, r2 = shrink(ops_desc, hist, ctx.work)
                 res.oracle_failures.append(dict(kind="history", ops=ops_desc, history=h2, why=r2["why"], at=r2["step"], sig=r2["sig"]))
-        # probes of the stale-propagated-gradings defect (notes/C12.md, fixes/C12-4.diff): run when their signature is
-        # registered in known_findings.json (open: reported as KNOWN-FINDING; fixed: must pass from then on)
+        # regression probes of the stale-propagated-gradings defect (fixes/C12-4.diff): registered as fixed, they must pass
         registered = set(f.get("signature") for f in core.load_findings())
         for (psig, pops, phist, label) in ((MOVE_SIG, MOVE_OPS, MOVE_HISTORY, "move_probe"),
                                            (TOLERANCE_SIG, TOLERANCE_OPS, TOLERANCE_HISTORY, "tolerance_probe")):
